@@ -778,6 +778,32 @@ func runIsolated(sc *pScenario) pResult {
 	var stderr bytes.Buffer
 	cmd.Stdout = io.Discard
 	cmd.Stderr = &stderr
+	var cttyM, cttyS *os.File
+	var cttyT0 interface{}
+	if c.Ctty {
+		// the child becomes the leader of a new session whose controlling terminal is a fresh pseudo-terminal: the
+		// program can open /dev/tty (WithInputTTY); its line discipline is compared before and after from here
+		m, sl, err := openPty()
+		if err != nil {
+			return fail("openpty: %v", err)
+		}
+		cttyM, cttyS = m, sl
+		defer m.Close()
+		defer sl.Close()
+		if t, err := getTermios(sl); err == nil {
+			cttyT0 = t
+		}
+		cmd.Stdin = sl
+		cmd.SysProcAttr = &syscall.SysProcAttr{Setsid: true, Setctty: true, Ctty: 0}
+		go func() { // keep the master drained
+			buf := make([]byte, 4096)
+			for {
+				if _, err := m.Read(buf); err != nil {
+					return
+				}
+			}
+		}()
+	}
 	runErr := cmd.Run()
 	tail := stderr.String()
 	if len(tail) > 4000 {
@@ -787,6 +813,15 @@ func runIsolated(sc *pScenario) pResult {
 	var res pResult
 	if runErr != nil || rerr != nil || json.Unmarshal(bytes.TrimSpace(ob), &res) != nil {
 		return fail("child: %v\n%s", runErr, tail)
+	}
+	if cttyS != nil {
+		_ = cttyM
+		if t1, err := getTermios(cttyS); err == nil {
+			if t0, ok := cttyT0.(*unix.Termios); ok {
+				eq := termiosEqual(t0, t1)
+				res.TermiosRestored = &eq
+			}
+		}
 	}
 	return res
 }
